@@ -21,7 +21,7 @@ func init() {
 			"R3: Add pairs the list append with the index store, Remove pairs the unlink with the index delete. " +
 			"R4: Iterator() increments the reference count of the node it starts from and stores that node in the iterator; Close() calls the release routine exactly once and clears the pointer. " +
 			"R5: in the advance routine every new cursor value gets a reference (+1) on its incoming path and the old cursor loses one (-1) before, also between two consecutive steps. R6: payload is read only from live nodes (from the index, from a skip-removed routine, or tested not to carry the removed mark on every path); R7: cursor routines get only iterator cursors (as argument, or - routines of the iterator itself - from the receiver's cursor); R8: links are written only by the list primitives (node methods, methods of a dedicated list type, the unlink and the append routine); R9: the unlink routine reports nil or its own successor as new head (or, when it re-targets the head itself, writes its own successor and only where the node is known to be the head); R10: release drops its reference before testing the count. The private routines (unlink, append, release, advance) are resolved by what they do (neighbour rewiring, payload fill, reference give-back, loop that moves a reference), wherever they live - also written out in place in the API method. R11: the unlink routine overwrites every payload field of the node (key and value) with its zero value on every path that changes the node. R12: the pointer surgery of the unlink routine: what a neighbour receives is the node's own link of the same name (or nil where the node is known to have no neighbour there), read before the node's own links are cleared; a path that rewires one neighbour rewires the other one too.",
-		NotDecided: "order and liveness of what an iterator returns over all histories (a value statement); the list pointer surgery inside the unlink routine.",
+		NotDecided: "order and liveness of what an iterator returns over all histories (a value statement).",
 	})
 	register(&Check{
 		ID: "C11", Title: "Ordered map and LRU cache retain nothing beyond live entries",
@@ -1738,5 +1738,51 @@ func (c *Ctx) unlinkSurgery(r *mapRoles, rule string) {
 		}
 		c.Decide(rule, fn, "both neighbours are rewired", ns.st, paired,
 			"the unlink routine rewires the neighbour on one side and can leave without rewiring the one on the other side: that neighbour keeps pointing at the unlinked node")
+	}
+	// an arm that cuts the node's own link without ever touching the neighbour behind it has no neighbour store to hang
+	// the clauses above on: every store that overwrites the own link A lies on paths that rewire the neighbour via A
+	// (before or behind the store) or pass an edge on which the node is known to have no neighbour on that side
+	for _, os := range own {
+		os := os
+		a := ownLink(os.Addr)
+		if a == nil {
+			continue
+		}
+		isVia := func(x ssa.Instruction) bool {
+			st, ok := x.(*ssa.Store)
+			if !ok {
+				return false
+			}
+			via, _ := nbrLink(st.Addr)
+			return via == a
+		}
+		noNbr := func(from, to *ssa.BasicBlock) bool {
+			ef := ir.EdgeFact(from, to)
+			if ef == nil {
+				return false
+			}
+			cm, isCmp := ef.Cmp()
+			if !isCmp || cm.Op != token.EQL {
+				return false
+			}
+			x, y := cm.X, cm.Y
+			if ir.IsNilConst(x) {
+				x, y = y, x
+			}
+			if !ir.IsNilConst(y) {
+				return false
+			}
+			for _, o := range ir.Origins(x) {
+				if ld, isLd := o.(*ssa.UnOp); isLd && ld.Op == token.MUL && ownLink(ld.X) == a {
+					return true
+				}
+			}
+			return false
+		}
+		before, e1 := (ir.Query{Fn: fn, Block: isVia, BlockEdge: noNbr, Target: func(x ssa.Instruction) bool { return x == ssa.Instruction(os) }}).Find()
+		after, e2 := (ir.Query{Fn: fn, From: os, Block: isVia, BlockEdge: noNbr, Target: ir.IsExit}).Find()
+		ok := e1 == nil && e2 == nil && (before == nil || after == nil)
+		c.Decide(rule, fn, "own link "+a.Name()+" cut only with the neighbour behind it rewired", os, ok,
+			"the unlink routine overwrites the node's own link "+a.Name()+" on a path that never rewires the neighbour on that side: the neighbour keeps its link to the unlinked (recycled) node, the list is corrupted from there on")
 	}
 }
